@@ -526,7 +526,8 @@ func (r *Reader) seekLinear(tabIter *tableIter, want record) (bool, error) {
 			return false, err
 		}
 		if !ok {
-			panic("read from fresh block failed")
+			// a block without records
+			return false, fmtError
 		}
 		if rec.key() > wantKey {
 			break
@@ -621,6 +622,9 @@ func (r *Reader) RefsFor(oid []byte) (*Iterator, error) {
 	it, err := r.start(blockTypeRef, false)
 	if err != nil {
 		return nil, err
+	}
+	if it == nil {
+		return &Iterator{&emptyIterator{}}, nil
 	}
 	return &Iterator{&filteringRefIterator{
 		tab:         r,
